@@ -75,7 +75,11 @@ func writeOpts(c maskCase) []resource.WriteOption {
 		o = append(o, resource.WithResetMask(mini.ConcMask(c.R)))
 	}
 	if !c.W2.Nil {
-		o = append(o, resource.WithMoreWritableFields(mini.ConcMask(c.W2)))
+		if len(c.W2.Paths)%2 == 1 && len(c.Old.R)%2 == 0 {
+			o = append(o, resource.WithMoreWritablePaths(mini.ConcMask(c.W2).Paths...))
+		} else {
+			o = append(o, resource.WithMoreWritableFields(mini.ConcMask(c.W2)))
+		}
 	}
 	if c.AllW {
 		o = append(o, resource.WithAllFieldsWritable())
